@@ -1101,6 +1101,15 @@ pub fn step(cfg: &Cfg, sut: &mut Sut, m: &mut Model, pre: &Snapshot, op: Op, has
                 }
             }
         }
+        Op::InvIf(Pred::Once) => {
+            // stateful predicate: the SUT reports the key it answered "true" for
+            m.inv_calls += 1;
+            if let Obs::Items(chosen) = &obs {
+                for (k, _) in chosen {
+                    m.keys[*k as usize].has = false;
+                }
+            }
+        }
         Op::InvIf(p) => {
             m.inv_calls += 1;
             for (k, km) in m.keys.iter_mut().enumerate() {
